@@ -13,6 +13,8 @@ def pairs : List Bytes → Option (List (Bytes × Bytes))
 def model (op : String) (a : List Bytes) : Option String :=
   match op, a with
   | "tru.format", fmt :: kv => (pairs kv).map fun args => errRes (Model.trustedResourceURLFormat fmt args)
+  -- FromFlag with a flag whose text changes between reads: the call behaves as for ONE read, the first
+  | "tru.formatflag", f1 :: _f2 :: kv => (pairs kv).map fun args => errRes (Model.trustedResourceURLFormat f1 args)
   | "tru.append", [t, s] => some (errRes (Model.trustedResourceURLAppend t s))
   | "tru.params", base :: kv => (pairs kv).map fun ps => okRes (Model.trustedResourceURLWithParams base ps)
   | "util.query", [s] => some (okRes (Model.queryEscapeURL s))
@@ -29,6 +31,11 @@ def oracle (op : String) (a : List Bytes) (real : List String) : Option String :
     (pairs kv).map fun args =>
       match parseOptRes real with
       | some r => Oracle.C13.format fmt args r
+      | none => bad
+  | "tru.formatflag", f1 :: _f2 :: kv =>
+    (pairs kv).map fun args =>
+      match parseOptRes real with
+      | some r => Oracle.C13.format f1 args r
       | none => bad
   | "tru.append", [t, s] =>
     some (match parseOptRes real with
